@@ -1041,6 +1041,8 @@ func callBuiltin(caller *frame, callpos token.Pos, fn *ssa.Builtin, args []value
 			return len(x)
 		case symstr:
 			return len(x.b)
+		case lenOnly:
+			return toKind(x.n, types.Int)
 		case *omap:
 			return x.len()
 		case *mchan:
@@ -1057,6 +1059,8 @@ func callBuiltin(caller *frame, callpos token.Pos, fn *ssa.Builtin, args []value
 			return cap((*x).(array))
 		case []value:
 			return cap(x)
+		case lenOnly:
+			return toKind(x.n, types.Int)
 		case *mchan:
 			return x.capacity()
 		default:
